@@ -35,7 +35,7 @@ PLAN = {
                   model=[(2, "core")], deep=[], d2cap=120, sim=(12, 120), asan=False, procs=8, chunk=1200),
     "thorough": dict(types=["SO2d", "SO3d", "SE2d", "SE3d", "C1f", "Gald", "SEK3_2d", "SEK3_3d", "B3d", "B5d", "BNd", "SE3f", "Galf", "SE2f"],
                      model=[(2, "full")], deep=[("SO2", 3, "core"), ("C1", 3, "core"), ("SO3", 3, "core")],
-                     d2cap=4000, sim=(60, 2000), asan=True, procs=10, chunk=2500),
+                     d2cap=6000, sim=(80, 3000), asan=True, procs=10, chunk=2500),
 }
 SPEC_MUTANTS = [("alias", "SE3"), ("short", "SE2"), ("galso3", "Gal"), ("dofpsum", "B3")]
 
